@@ -530,11 +530,15 @@ func objectEntry(r *Scanner) (stateFn, error) {
 	// value, so any overrun signals a malformed entry. For delta entries
 	// the declared size is the size of the delta instruction stream, not
 	// the resolved object.
-	mw = &boundedWriter{w: mw, limit: oh.Size}
+	bw := &boundedWriter{w: mw, limit: oh.Size}
 
-	_, err = ioutil.CopyBufferPool(mw, zr)
+	_, err = ioutil.CopyBufferPool(bw, zr)
 	if err != nil {
 		return nil, err
+	}
+	if bw.n != oh.Size {
+		return nil, fmt.Errorf("%w: object at offset %d inflates to %d bytes, header declares %d",
+			ErrMalformedPackfile, oh.Offset, bw.n, oh.Size)
 	}
 
 	if err := r.Flush(); err != nil {
